@@ -279,6 +279,17 @@ func c16Routes(f string, isF bool, args []interface{}, seen func([]byte)) string
 				rt{"SafePrinter inside SafeFormat reached from Sprintfn→Print", func() []byte {
 					return []byte(redact.Sprintfn(func(p redact.SafePrinter) { p.Print(nested()) }))
 				}},
+				// ... nor on WHY the method was called: here its receiver is the value of a panic being reported
+				rt{"SafePrinter inside SafeFormat of a panic value being reported", func() []byte {
+					b := []byte(redact.Sprint(panStrT{nested()}))
+					b = bytes.TrimPrefix(b, []byte("%!v(PANIC=String method: "))
+					return bytes.TrimSuffix(b, []byte(")"))
+				}},
+				rt{"SafePrinter inside SafeFormat of a panic value reported inside a slice", func() []byte {
+					b := []byte(redact.Sprintf("%v", []interface{}{panErrT{nested()}}))
+					b = bytes.TrimPrefix(b, []byte("[%!v(PANIC=Error method: "))
+					return bytes.TrimSuffix(b, []byte(")]"))
+				}},
 				rt{"SafePrinter inside SafeFormat reached from JoinTo(StringBuilder)", func() []byte {
 					var b redact.StringBuilder
 					redact.JoinTo(&b, ",", []redact.SafeFormatter{nested()})
